@@ -1124,3 +1124,230 @@ Proof.
     assert (Hex : exists g, sem a = inr g) by (apply sem_accepts_iff; tauto).
     destruct Hex as (g & Hg). rewrite Hg. f_equal. exact (sem_accepts_value _ Hg).
 Qed.
+
+(* ====================================================================== *)
+(* B5.  The tokens spell exactly the input                                  *)
+(* ====================================================================== *)
+
+(* ---- characters ---- *)
+Lemma N_of_ascii_inj : forall a b, N_of_ascii a = N_of_ascii b -> a = b.
+Proof. intros a b H. rewrite <- (ascii_N_embedding a), <- (ascii_N_embedding b), H. reflexivity. Qed.
+Lemma ascii_eqb_eq : forall a b, ascii_eqb a b = true -> a = b.
+Proof. intros a b H. apply N_of_ascii_inj. apply N.eqb_eq. exact H. Qed.
+Lemma text_eqb_eq : forall a b, text_eqb a b = true -> a = b.
+Proof.
+  induction a as [|x a IH]; intros [|y b] H; simpl in H; try discriminate; [reflexivity|].
+  apply andb_true_iff in H. destruct H as [H1 H2].
+  rewrite (ascii_eqb_eq _ _ H1), (IH _ H2). reflexivity.
+Qed.
+Lemma strip_prefix_app : forall p l rest, strip_prefix p l = Some rest -> l = p ++ rest.
+Proof.
+  induction p as [|a p IH]; intros l rest H; simpl in H.
+  - inversion H; reflexivity.
+  - destruct l as [|b l]; [discriminate|].
+    destruct (ascii_eqb a b) eqn:E; [|discriminate].
+    rewrite (ascii_eqb_eq _ _ E), (IH _ _ H). reflexivity.
+Qed.
+
+(* ---- element symbols ---- *)
+Lemma assoc_symbol_of : forall (l : list (text * N)) s z,
+  NoDup (map snd l) -> assoc_text l s = Some z -> symbol_of_in l z = Some s.
+Proof.
+  induction l as [|[k v] r IH]; intros s z ND H; simpl in *; [discriminate|].
+  inversion ND as [|? ? Hnin ND']; subst.
+  destruct (text_eqb k s) eqn:E.
+  - inversion H; subst. rewrite N.eqb_refl. rewrite (text_eqb_eq _ _ E). reflexivity.
+  - destruct (N.eqb v z) eqn:Ez.
+    + apply N.eqb_eq in Ez; subst v. exfalso. apply Hnin.
+      clear -H. induction r as [|[k' v'] r IH]; simpl in *; [discriminate|].
+      destruct (text_eqb k' s); [inversion H; left; reflexivity|right; auto].
+    + apply IH; assumption.
+Qed.
+
+Lemma elem_table_numbers_nodup : NoDup (map snd elem_table).
+Proof. apply nodupN_sound. vm_compute. reflexivity. Qed.
+
+Lemma z_of_symbol_symbol_of : forall s z, z_of_symbol s = Some z -> symbol_of z = Some s.
+Proof. intros s z. apply assoc_symbol_of. exact elem_table_numbers_nodup. Qed.
+
+(* ---- decimal numerals ---- *)
+Definition dcons (k : N) (d : Decimal.uint) : Decimal.uint :=
+  match k with
+  | 0 => Decimal.D0 d | 1 => Decimal.D1 d | 2 => Decimal.D2 d | 3 => Decimal.D3 d | 4 => Decimal.D4 d
+  | 5 => Decimal.D5 d | 6 => Decimal.D6 d | 7 => Decimal.D7 d | 8 => Decimal.D8 d | _ => Decimal.D9 d
+  end%N.
+Fixpoint uint_of_digits (l : text) : Decimal.uint :=
+  match l with [] => Decimal.Nil | c :: r => dcons (digit_val c) (uint_of_digits r) end.
+
+Lemma le9_cases : forall k : N, (k <= 9)%N ->
+  k = 0%N \/ k = 1%N \/ k = 2%N \/ k = 3%N \/ k = 4%N \/ k = 5%N \/ k = 6%N \/ k = 7%N \/ k = 8%N \/ k = 9%N.
+Proof. intros k H. lia. Qed.
+
+Lemma dcons_string : forall k d, (k <= 9)%N ->
+  list_ascii_of_string (DecimalString.NilEmpty.string_of_uint (dcons k d)) =
+  ascii_of_N (48 + k) :: list_ascii_of_string (DecimalString.NilEmpty.string_of_uint d).
+Proof.
+  intros k d H. destruct (le9_cases H) as [->|[->|[->|[->|[->|[->|[->|[->|[->| ->]]]]]]]]]; reflexivity.
+Qed.
+
+Lemma dcons_acc : forall k d acc, (k <= 9)%N ->
+  exists acc', Pos.of_uint_acc (dcons k d) acc = Pos.of_uint_acc d acc' /\
+               N.pos acc' = (10 * N.pos acc + k)%N.
+Proof.
+  intros k d acc H.
+  destruct (le9_cases H) as [->|[->|[->|[->|[->|[->|[->|[->|[->| ->]]]]]]]]];
+    cbn [dcons Pos.of_uint_acc]; eexists; (split; [reflexivity|]); lia.
+Qed.
+
+Lemma is_digit_val : forall c, is_digit c = true ->
+  (digit_val c <= 9)%N /\ c = ascii_of_N (48 + digit_val c).
+Proof.
+  intros c H. unfold is_digit in H. apply andb_true_iff in H. destruct H as [H1 H2].
+  apply N.leb_le in H1. apply N.leb_le in H2. unfold digit_val. split; [lia|].
+  replace (48 + (N_of_ascii c - 48))%N with (N_of_ascii c) by lia.
+  symmetry. apply ascii_N_embedding.
+Qed.
+
+Lemma uint_of_digits_string : forall l, forallb is_digit l = true ->
+  list_ascii_of_string (DecimalString.NilEmpty.string_of_uint (uint_of_digits l)) = l.
+Proof.
+  induction l as [|c r IH]; intros H; [reflexivity|].
+  cbn [forallb] in H. apply andb_true_iff in H. destruct H as [Hc Hr].
+  destruct (is_digit_val _ Hc) as [Hk Ec].
+  cbn [uint_of_digits]. rewrite dcons_string by assumption. rewrite IH by assumption.
+  rewrite <- Ec. reflexivity.
+Qed.
+
+Lemma uint_of_digits_acc : forall l acc, forallb is_digit l = true ->
+  N.pos (Pos.of_uint_acc (uint_of_digits l) acc) = digits_val (N.pos acc) l.
+Proof.
+  induction l as [|c r IH]; intros acc H; [reflexivity|].
+  cbn [forallb] in H. apply andb_true_iff in H. destruct H as [Hc Hr].
+  destruct (is_digit_val _ Hc) as [Hk _].
+  cbn [uint_of_digits digits_val].
+  destruct (dcons_acc (uint_of_digits r) acc Hk) as (acc' & -> & E).
+  rewrite IH by assumption. rewrite E. reflexivity.
+Qed.
+
+(* first digit not 0 *)
+Lemma uint_of_digits_value : forall c d,
+  is_digit c = true -> N.eqb (N_of_ascii c) 48 = false -> forallb is_digit d = true ->
+  N.of_uint (uint_of_digits (c :: d)) = digits_val 0 (c :: d) /\
+  Decimal.unorm (uint_of_digits (c :: d)) = uint_of_digits (c :: d) /\
+  uint_of_digits (c :: d) <> Decimal.Nil.
+Proof.
+  intros c d Hc H0 Hd.
+  destruct (is_digit_val _ Hc) as [Hk _].
+  assert (Hnz : digit_val c <> 0%N).
+  { unfold digit_val. unfold is_digit in Hc. apply andb_true_iff in Hc. destruct Hc as [H1 _].
+    apply N.leb_le in H1. apply N.eqb_neq in H0. lia. }
+  change (digits_val 0 (c :: d)) with (digits_val (digit_val c) d).
+  cbn [uint_of_digits]. unfold N.of_uint.
+  destruct (le9_cases Hk) as [E|[E|[E|[E|[E|[E|[E|[E|[E|E]]]]]]]]]; [contradiction|..];
+    rewrite E; cbn [dcons Pos.of_uint Decimal.unorm];
+    (split; [apply uint_of_digits_acc; assumption|split; [reflexivity|discriminate]]).
+Qed.
+
+Lemma text_of_Z_of_N : forall n, text_of_Z (Z.of_N n) = text_of_N n.
+Proof. intros [|p]; reflexivity. Qed.
+
+(* the decimal round trip: str(int(ds)) = ds for a numeral without leading zero *)
+Lemma decimal_round_trip : forall c d,
+  is_digit c = true -> N.eqb (N_of_ascii c) 48 = false -> forallb is_digit d = true ->
+  text_of_Z (Z.of_N (digits_val 0 (c :: d))) = c :: d.
+Proof.
+  intros c d Hc H0 Hd.
+  destruct (uint_of_digits_value c d Hc H0 Hd) as (Ev & En & Hnil).
+  rewrite text_of_Z_of_N. unfold text_of_N. rewrite <- Ev.
+  rewrite DecimalN.Unsigned.to_of, En.
+  unfold t. replace (DecimalString.NilZero.string_of_uint (uint_of_digits (c :: d)))
+    with (DecimalString.NilEmpty.string_of_uint (uint_of_digits (c :: d))).
+  - apply uint_of_digits_string. cbn [forallb]. rewrite Hc, Hd. reflexivity.
+  - destruct (uint_of_digits (c :: d)); [contradiction|reflexivity..].
+Qed.
+
+Lemma span_digits_spec : forall l d rest, span_digits l = (d, rest) ->
+  l = d ++ rest /\ forallb is_digit d = true.
+Proof.
+  induction l as [|c r IH]; intros d rest H; simpl in H.
+  - inversion H; subst. split; reflexivity.
+  - destruct (is_digit c) eqn:E.
+    + destruct (span_digits r) as [d0 rest0] eqn:Es. inversion H; subst.
+      destruct (IH _ _ eq_refl) as [-> Hd]. split; [reflexivity|].
+      cbn [forallb]. rewrite E, Hd. reflexivity.
+    + inversion H; subst. split; reflexivity.
+Qed.
+
+Lemma punct_print : forall c k, punct c = Some k -> [c] = print_token k.
+Proof.
+  intros c k. unfold punct.
+  repeat match goal with
+         | |- context [if N.eqb ?x ?y then _ else _] =>
+           let E := fresh "E" in destruct (N.eqb x y) eqn:E;
+           [apply N.eqb_eq in E; intros H; inversion H; subst;
+            rewrite <- (ascii_N_embedding c), E; reflexivity|]
+         end.
+  discriminate.
+Qed.
+
+Lemma print_sym : forall s z, z_of_symbol s = Some z -> print_token (TSym z) = s.
+Proof. intros s z H. simpl. rewrite (z_of_symbol_symbol_of _ H). reflexivity. Qed.
+
+Lemma lex1_print : forall l k rest, lex1 l = Some (k, rest) -> l = print_token k ++ rest.
+Proof.
+  intros l k rest H. unfold lex1 in H. destruct l as [|c r]; [discriminate|].
+  destruct (is_digit c) eqn:Ed.
+  - destruct (N.eqb (N_of_ascii c) 48) eqn:E0; [discriminate|].
+    destruct (span_digits r) as [d rest0] eqn:Es. inversion H; subst.
+    destruct (span_digits_spec _ Es) as [-> Hd].
+    cbn [print_token].
+    change (c :: d ++ rest = text_of_Z (Z.of_N (digits_val 0 (c :: d))) ++ rest).
+    rewrite (decimal_round_trip c d Ed E0 Hd). reflexivity.
+  - destruct (is_upper c).
+    + destruct r as [|c2 r2].
+      * destruct (z_of_symbol [c]) as [z|] eqn:Ez; [|discriminate]. inversion H; subst.
+        rewrite (print_sym _ Ez). reflexivity.
+      * destruct (if is_lower c2 then z_of_symbol [c; c2] else None) as [z|] eqn:E2.
+        -- inversion H; subst. destruct (is_lower c2); [|discriminate].
+           rewrite (print_sym _ E2). reflexivity.
+        -- destruct (z_of_symbol [c]) as [z|] eqn:Ez; [|discriminate]. inversion H; subst.
+           rewrite (print_sym _ Ez). reflexivity.
+    + destruct (punct c) as [k0|] eqn:Ep.
+      * inversion H; subst. rewrite <- (punct_print _ Ep). reflexivity.
+      * destruct (strip_prefix (t "mass") (c :: r)) as [rest0|] eqn:Em.
+        -- inversion H; subst. exact (strip_prefix_app _ _ Em).
+        -- destruct (strip_prefix (t "rad") (c :: r)) as [rest0|] eqn:Er; [|discriminate].
+           inversion H; subst. exact (strip_prefix_app _ _ Er).
+Qed.
+
+Lemma lex_fuel_print : forall fuel l ts, lex_fuel fuel l = Some ts -> print_tokens ts = l.
+Proof.
+  induction fuel as [|f IH]; intros l ts H.
+  - destruct l; simpl in H; [inversion H; reflexivity|discriminate].
+  - destruct l as [|c r]; [simpl in H; inversion H; reflexivity|].
+    cbn [lex_fuel] in H.
+    destruct (lex1 (c :: r)) as [[k rest]|] eqn:E1; [|discriminate].
+    destruct (lex_fuel f rest) as [ks|] eqn:E2; [|discriminate].
+    inversion H; subst. unfold print_tokens. cbn [flat_map].
+    fold (print_tokens ks). rewrite (IH _ _ E2). symmetry. exact (lex1_print _ E1).
+Qed.
+
+Theorem lex_text_print : forall s ts, lex_text s = Some ts -> print_tokens ts = s.
+Proof. intros s ts. apply lex_fuel_print. Qed.
+
+(* hence lexing is injective: two accepted strings with the same tokens are the same string *)
+Corollary lex_text_inj : forall s s' ts, lex_text s = Some ts -> lex_text s' = Some ts -> s = s'.
+Proof. intros s s' ts H H'. rewrite <- (lex_text_print _ H), <- (lex_text_print _ H'). reflexivity. Qed.
+
+(* why parse_tokens_sound carries `Forall tok_ok ts`: parse_tokens does not re-check that
+   indices and values are >= 1 (the lexer cannot produce anything else), so on the larger
+   type of raw token lists it accepts a list that is no sentence.  Not a defect of the
+   reader on strings: `lex_text_tok_ok` rules the case out. *)
+Example ex_tok_ok_needed :
+  parse_tokens [TSlash; TLp; TNum 0; TDash; TNum 5; TRp] = Some (mkAst [] [(0, 5)%Z] []) /\
+  forall a, ~ Sentence [TSlash; TLp; TNum 0; TDash; TNum 5; TRp] a.
+Proof.
+  split; [vm_compute; reflexivity|].
+  intros a HS. pose proof (parse_tokens_complete HS) as E. vm_compute in E. inversion E; subst a.
+  destruct (wf_tuples (Sentence_wf HS) 0%Z 5%Z) as [H _]; [left; reflexivity|]. lia.
+Qed.
